@@ -237,6 +237,57 @@ def gate(ctx, rule='K4'):
                  % ('guarded' if ok else 'NOT guarded'), c.span, key=fi.name + '|%s|gate' % rule, detail={'guards': desc})
 
 
+def drawing_conditions(ctx, rule='K4'):
+    """nothing but the documented conditions decides whether a cel is drawn: in frame_image the loop itself, the lookup of the cel and
+    the visibility gate; in layer_image the lookup; in write_cel the match on the cel's content, the lookup and content of a link
+    target and the layer type of a tilemap cel.  A fast path or a skip under any other test (`if opacity product == 0 { continue }`
+    with a truncating product - seed C17-q; `if cel.is_off_canvas(..) { return }` with a 16-bit canvas size - seed C06-q; a copy
+    instead of a blend for canvas-sized opaque cels that forgets the offset - seed C02-q) is reported: each was "almost right"."""
+    def allowed(cond, where):
+        c = cond
+        while c[0] == 'un' and c[1] == 'Not':
+            c = c[2]
+        if c[0] == 'call' and c[1] == 'asefile::layer::Layer::is_visible':
+            return where == 'frame_image'
+        if c[0] == 'any':
+            return all(x[0] == 'const' or allowed(x, where) for x in alts(c))
+        if c[0] != 'discr':
+            return False
+        sub = [x for x in walk(c[1]) if isinstance(x, tuple) and x]
+        if any(x[0] == 'next' for x in sub) and where == 'frame_image':
+            return True
+        if any(x[0] == 'call' and x[1] == 'asefile::cel::CelsData::cel' for x in sub):
+            return True
+        if where == 'write_cel':
+            if any(x[0] == 'field' and x[2] == 'content' for x in sub):
+                return True
+            if any(x[0] == 'call' and x[1] == 'asefile::layer::Layer::layer_type' for x in sub):
+                return True
+        return False
+    n = 0
+    for fn, where, callees in ((AF + 'frame_image', 'frame_image', (AF + 'write_cel',)), (AF + 'layer_image', 'layer_image', (AF + 'write_cel',)),
+                               (AF + 'write_cel', 'write_cel', tuple(RASTER) + (AF + 'write_cel',))):
+        b = ctx.anchor(fn)
+        if b is None:
+            continue
+        for c in q.calls(b):
+            if q.callee_name(c) not in callees:
+                continue
+            n += 1
+            extra = [show(cond)[:100] for cond, truth in q.deep_conds(b, c.bb) if not allowed(cond, where)]
+            # .. and, by control dependence, tests that no single edge of which dominates the call (`a && b && c` fast paths)
+            for S_ in sorted(q.controlling_switches(b, c.bb)):
+                cond = q.switch_cond(b, S_)
+                if not allowed(cond, where) and show(cond)[:100] not in extra:
+                    extra.append(show(cond)[:100])
+            # (a gate moved into the iterator - `.filter(|..| visible)` - is judged by the gate rule)
+            ctx.inst(rule, '%s -> %s#conditions' % (where, q.callee_name(c).split('::')[-1]), not extra,
+                     'the call is reached %s' % ('only under the documented conditions (loop / lookup / content match / visibility)' if not extra else
+                                                 'ALSO under %s: a cel can be skipped or drawn differently for a reason the property does not know' % extra),
+                     c.span, key=ctx.key(fn, rule, 'conditions', q.callee_name(c)))
+    ctx.floor('draw calls with checked conditions', n, 5)
+
+
 def blend_calls(body):
     """[(call, fn_term, (dst, src, opacity))] for indirect calls of the blend function"""
     out = []
@@ -259,7 +310,7 @@ def opacity_and_mode(ctx, rule_o='K5', rule_m='K6'):
         b = ctx.anchor(fn)
         if b is None:
             continue
-        oo = param_named(b, name='outer_opacity') or b.arg_count
+        oo = (param_named(b, name='outer_opacity') or next((i_ for i_ in range(1, b.arg_count + 1) if b.locals[i_]['ty'] == 'u8'), None) or b.arg_count)
         cd = param_named(b, ty_contains='cel::CelCommon')
         bm = param_named(b, ty_contains='layer::BlendMode')
         for c, fterm, (dst, src, op) in blend_calls(b):
@@ -286,7 +337,7 @@ def opacity_and_mode(ctx, rule_o='K5', rule_m='K6'):
             n += 1
             at = q.arg_terms(c)
             rb = fx.body(nm)
-            oo = (param_named(rb, name='outer_opacity') or rb.arg_count) - 1
+            oo = (param_named(rb, name='outer_opacity') or next((i_ for i_ in range(1, rb.arg_count + 1) if rb.locals[i_]['ty'] == 'u8'), None) or rb.arg_count) - 1
             bm = param_named(rb, ty_contains='layer::BlendMode') - 1
             cd = param_named(rb, ty_contains='cel::CelCommon') - 1
 
@@ -354,7 +405,7 @@ def operands_and_offset(ctx, rule_p='K7', rule_x='K8'):
             continue
         img = param_named(b, ty_contains='image::ImageBuffer')
         cd = param_named(b, ty_contains='cel::CelCommon')
-        px = param_named(b, name='pixels')
+        px = param_named(b, ty_contains='[image::Rgba<u8>]') or param_named(b, name='pixels')       # by type: parameter names are free to change
         for c, fterm, (dst, src, op) in blend_calls(b):
             okd = dst[0] == 'call' and dst[1] == 'image::ImageBuffer::get_pixel' and is_param(dst[2][0], img)
             puts = [p for p in q.calls(b, 'image::ImageBuffer::put_pixel')]
